@@ -134,12 +134,12 @@ def run(ctx, pid, phases, title, extra_tb, rule):
             viol.append(dict(kind="hash-model-mismatch", **diff))
         if tr["skel"] is not None:
             skip = sorted(tr["known"])
-            budget = 1_500_000 if thorough else 600_000
+            budget = 700_000 if thorough else 600_000
             runs = [("q", ctx.seed, "quick", dict())]
             if not thorough:
                 runs.append(("q2", ctx.seed + 7919, "quick", dict(threads=3, nops=120)))
             else:
-                runs += [("t%d" % i, ctx.seed + 101 * i, "thorough", dict()) for i in range(1, 9)]
+                runs += [("t%d" % i, ctx.seed + 101 * i, "thorough", dict()) for i in range(1, 6)]
                 runs += [("race", ctx.seed + 13, "thorough", dict(race=True)),
                          ("tcp", ctx.seed + 17, "quick", dict(tcp=True)),
                          ("many", ctx.seed + 19, "quick", dict(threads=16, nops=40))]
@@ -151,6 +151,11 @@ def run(ctx, pid, phases, title, extra_tb, rule):
             # DESIGN 2.4 (b): an obligation names executors -> stress exactly those, looking for a
             # failing history, within a time budget
             named = sorted(set(m.split(":")[0] for m in bad if ":" in m and not m.startswith("obligation")) & set(tr["report"]))
+            # a broken shape fact names no executor: stress the commands that depend on it
+            if not named and any("fact_count" in m or "fact_keys" in m for m in bad):
+                named = ["del", "lpush", "set"]
+            elif not named and any("shape fact" in m for m in bad):
+                named = ["lmove", "mset", "rename", "sinter", "smove", "sunion"]
             if named and not viol:
                 import time as _t
                 t0 = _t.time()
